@@ -48,11 +48,33 @@ extracted parameter `Params.mtspAgentCmp`) -/
 theorem agentLeft_eq (i : Inst) (s : State) : agentLeft i s = decide (s.agent + 1 < i.m) := by
   simp [agentLeft, Params.mtspAgentCmp, Cmp.evalNat]
 
+@[simp] theorem agentInc_eq (a : Nat) : agentInc a = if a = 0 then 1 else 0 := by
+  simp [agentInc, Params.mtspAgentIncCmp, Cmp.evalNat]
+@[simp] theorem depotNe_eq (a : Nat) : depotNe a = decide (a ≠ 0) := by
+  simp [depotNe, Params.mtspDepotNeCmp, Cmp.evalNat]
+@[simp] theorem sameAgent_eq (x y : Nat) : sameAgent x y = decide (x = y) := by
+  simp [sameAgent, Params.mtspResetCmp, Cmp.evalNat]
+/-- "no customer left" is the test `count == 0` (obligation on `Params.mtspDoneCmp`) -/
+@[simp] theorem doneTest_eq (n : Nat) (av : Nat → Bool) : doneTest n av = !(anyCust n av) := by
+  simp only [doneTest, Params.mtspDoneCmp, Cmp.evalNat]
+  cases h : anyCust n av with
+  | true =>
+    obtain ⟨j, h1, h2, hj⟩ := anyCust_eq_true.mp h
+    have : 0 < cnt n (fun k => av (k + 1)) := cnt_pos.mpr ⟨j - 1, by omega, by
+      have e : j - 1 + 1 = j := by omega
+      simp [e, hj]⟩
+    simp; omega
+  | false =>
+    have := anyCust_eq_false.mp h
+    have : cnt n (fun k => av (k + 1)) = 0 := cnt_eq_zero.mpr (fun j hj => this (j + 1) (by omega) (by omega))
+    simp [this]
+
 /-! ### projections of `step` -/
 
 @[simp] theorem step_cur (i : Inst) (s : State) (a : Nat) : (step i s a).cur = a := rfl
 @[simp] theorem step_agent (i : Inst) (s : State) (a : Nat) :
-    (step i s a).agent = s.agent + (if a = 0 then 1 else 0) := rfl
+    (step i s a).agent = s.agent + (if a = 0 then 1 else 0) := by
+  simp [step, stepWith]
 
 /-- customers: only the visited one is switched off -/
 theorem step_avail_cust (i : Inst) (s : State) (a j : Nat) (hj : j ≠ 0) :
@@ -62,12 +84,12 @@ theorem step_avail_cust (i : Inst) (s : State) (a j : Nat) (hj : j ≠ 0) :
 theorem step_done (i : Inst) (s : State) (a : Nat) :
     (step i s a).done = !(anyCust i.n (step i s a).avail) := by
   have : anyCust i.n (step i s a).avail =
-      anyCust i.n (upd (upd s.avail a false) 0 (decide (a ≠ 0) && agentLeft i s)) := by
+      anyCust i.n (upd (upd s.avail a false) 0 (depotNe a && agentLeft i s)) := by
     apply anyCust_congr
     intro j h1 _
     have hj : j ≠ 0 := by omega
     simp only [step, stepWith, upd_apply, hj, if_false]
-  rw [this]; rfl
+  rw [this, ← doneTest_eq]; rfl
 
 theorem step_avail_depot (i : Inst) (s : State) (a : Nat) :
     (step i s a).avail 0 = ((step i s a).done || (decide (a ≠ 0) && decide (s.agent + 1 < i.m))) := by
